@@ -45,3 +45,52 @@ Example C08_klv_example :   (* the old witness: the two units now live in differ
     = [DFrame (unitA, 1); DFrame (unitB, 2)]
   /\ map snd (snd (dec_run dinit [mkPkt 10 0 true unitA; mkPkt 11 0 true unitB])) = [[1]; [2]].
 Proof. split; vm_compute; reflexivity. Qed.
+
+(* ---- the translated kernels (tools/go2coq, regenerated from the Go source on every run) ----
+   The length tests of rtpklv/decoder.go - isKLVStart's len(payload) < 4 and its four key bytes 06 0e 2b 34,
+   len(payload) >= 17 - every statement of parseKLVLength - (firstByte & 0x80) == 0, uint(firstByte & 0x7f), the bounds
+   lengthBytes == 0 || lengthBytes > 8, totalLengthSize := 1 + lengthBytes, int(totalLengthSize) > len(data), the
+   accumulation lengthValue = (lengthValue << 8) | uint(data[1+i]) run over the bytes of the field (Bridge.lv_loop) - the
+   expected size 16 + int(lengthSize) + int(valueLength) (64-bit wrap-around, kept when positive) and the completion test
+   d.expectedSize > 0 && len(d.buffer) >= d.expectedSize ARE the formulas of Model.is_start / expected_of / parse_len /
+   be_value / norm_exp / finish. *)
+From Coq Require Import ZArith List.
+From GVG Require Import Kern.
+From GV_klv Require Import BridgeLib Bridge.
+Open Scope Z_scope.
+
+Theorem C08_klv_kernels_are_the_code : forall (p data buf bs : bytes) (a b c e b0 ls v acc : N) (r : bytes),
+  byte b0 -> u64 ls -> u64 v -> u64 acc -> Forall byte bs ->
+  k_klv_start_short (Z.of_N (nlen p)) = (nlen p <? 4)%N /\
+  k_klv_start_key (Z.of_N a) (Z.of_N b) (Z.of_N c) (Z.of_N e) = is_start (a :: b :: c :: e :: r) /\
+  k_klv_dec_haslen (Z.of_N (nlen p)) = (17 <=? nlen p)%N /\
+  k_klv_len_short (Z.of_N b0) = (b0 / 128 mod 2 =? 0)%N /\
+  k_klv_len_shortval (Z.of_N b0) = Z.of_N (b0 mod 128) /\ k_klv_len_shortsize = Z.of_N 1 /\
+  k_klv_len_nbytes (Z.of_N b0) = Z.of_N (b0 mod 128) /\
+  k_klv_len_bad (k_klv_len_nbytes (Z.of_N b0)) = ((b0 mod 128 =? 0)%N || (8 <? b0 mod 128)%N) /\
+  k_klv_len_total (k_klv_len_nbytes (Z.of_N b0)) = Z.of_N (1 + b0 mod 128) /\
+  k_klv_len_trunc (k_klv_len_total (k_klv_len_nbytes (Z.of_N b0))) (Z.of_N (nlen data)) = (nlen data <? 1 + b0 mod 128)%N /\
+  lv_loop (Z.of_N acc) bs = Z.of_N (be_value acc bs) /\
+  Z.to_N (k_klv_dec_expsize (Z.of_N ls) (Z.of_N v)) = norm_exp (16 + ls + v) /\
+  k_klv_dec_complete (k_klv_dec_expsize (Z.of_N ls) (Z.of_N v)) (Z.of_N (nlen buf))
+    = ((0 <? norm_exp (16 + ls + v))%N && (norm_exp (16 + ls + v) <=? nlen buf)%N).
+Proof. exact caps_kernels_are_the_code. Qed.
+Print Assumptions C08_klv_kernels_are_the_code.
+
+(* 3 bytes cannot be a key, 4 can; 16 bytes have no length field, 17 have; 0x7f is a short length 127, 0x80 an invalid
+   long form (0 bytes), 0x88 a valid one (8 bytes), 0x89 invalid (9); a 3-byte field 0x82 0x01 0x00 needs 3 bytes and is
+   256; a value length of 2^64-17 plus 16 + 1 wraps to 0 (never complete), 2^63-17 to a negative int (never complete);
+   16+1+3 = 20 is complete with 20 bytes, not with 19 *)
+Example C08_klv_example_kernels :
+  k_klv_start_short 3 = true /\ k_klv_start_short 4 = false /\ k_klv_start_key 6 14 43 52 = true /\
+  k_klv_start_key 6 14 43 53 = false /\ k_klv_dec_haslen 16 = false /\ k_klv_dec_haslen 17 = true /\
+  k_klv_len_short 127 = true /\ k_klv_len_shortval 127 = 127 /\ k_klv_len_short 128 = false /\
+  k_klv_len_bad (k_klv_len_nbytes 128) = true /\ k_klv_len_bad (k_klv_len_nbytes 136) = false /\
+  k_klv_len_bad (k_klv_len_nbytes 137) = true /\
+  k_klv_len_trunc (k_klv_len_total (k_klv_len_nbytes 130)) 3 = false /\
+  k_klv_len_trunc (k_klv_len_total (k_klv_len_nbytes 130)) 2 = true /\ lv_loop 0 [1; 0]%N = 256 /\
+  k_klv_dec_expsize 1 18446744073709551599 = 0 /\ k_klv_dec_expsize 1 9223372036854775791 = -9223372036854775808 /\
+  k_klv_dec_complete (k_klv_dec_expsize 1 18446744073709551599) 100 = false /\
+  k_klv_dec_complete (k_klv_dec_expsize 1 9223372036854775791) 100 = false /\
+  k_klv_dec_complete (k_klv_dec_expsize 1 3) 20 = true /\ k_klv_dec_complete (k_klv_dec_expsize 1 3) 19 = false.
+Proof. vm_compute. repeat split. Qed.
